@@ -54,6 +54,10 @@ func c10API(ctx *core.Ctx, idx int) core.Result {
 				a[j] = val.NilV
 			} else if r.Chance(1, 4) {
 				a[j] = val.StrV(fmt.Sprintf("e%d", r.Intn(50)))
+			} else if r.Chance(1, 4) {
+				a[j] = val.FloatV(float64(r.Intn(6)))
+			} else if r.Chance(1, 3) {
+				a[j] = val.IntV(int64(r.Intn(6)))
 			} else {
 				a[j] = val.IntV(int64(r.Intn(1000)))
 			}
@@ -105,7 +109,16 @@ func c10API(ctx *core.Ctx, idx int) core.Result {
 			var err error
 			var want val.Outcome
 			how := ""
-			switch r.Intn(5) {
+			switch r.Intn(6) {
+			case 5: // comparison (reads both operands, must write neither)
+				b, _ := pick(k)
+				opc, ops := bytecode.EQ, "=="
+				if r.Bool() {
+					opc, ops = bytecode.NE, "!="
+				}
+				got, err = a.real.Eq(opc, b.real)
+				want = val.Binary(ops, a.shadow, b.shadow)
+				how = fmt.Sprintf("(%s)%s(%s)", a.how, ops, b.how)
 			case 0, 1: // concatenation
 				b, _ := pick(k)
 				got, err = a.real.Arith(bytecode.ADD, b.real)
